@@ -468,6 +468,8 @@ def sym_field_req(v):
         return "N"
     if not v:
         return "E"
+    if not isinstance(v, dict):  # (a tuple of tied values stored on ONE note: never on the unchanged tree; see check_symbolic)
+        return "S %s 0 - -" % W.s("not-a-dict:" + type(v).__name__)
     return "S %s %d %s %s" % (W.s(v.get("type")), v.get("dots", 0) or 0, W.opt(W.i, v.get("actual_notes")), W.opt(W.i, v.get("normal_notes")))
 
 
@@ -524,7 +526,15 @@ def check_symbolic(part, stage, out, limit=3, exempt=()):
         if isinstance(n, S.GraceNote) or n.end is None or id(n) in exempt:
             continue
         sd = n.symbolic_duration
-        if not sd or isinstance(sd, tuple):
+        if sd is not None and not isinstance(sd, dict):
+            # "every symbolic duration the library assigns evaluates to the note's numeric duration": a tuple of
+            # tied values on a single note does not evaluate at all (symbolic_to_numeric_duration raises on it)
+            if cnt < limit:
+                cnt += 1
+                out.append("%s/symbolic: %s %s [%s,%s) has a symbolic duration that is not a single notated value: %r" % (
+                    stage, type(n).__name__, n.id, n.start.t, n.end.t, sd))
+            continue
+        if not sd:
             continue
         q = n.start.quarter
         ex = numeric_exact(sd)
